@@ -97,7 +97,11 @@ def run_reports(prop, tier, seed, exports=False, gantt=False, replay=None, procs
         for q in renamed:
             q["tag"] = q["tag"] + "/number-like-names"
         problems = FT.number([json.loads(json.dumps(q)) for q in problems + renamed])
-    V, st_enum = tlc.enumerate_V(problems)
+    # problems too large for a complete enumeration (a cumulative worker of size 10): only what solve() returns by
+    # default is recorded and judged by the Report clauses
+    V, st_enum = tlc.enumerate_V([q for q in problems if not q.get("default_only")] or problems[:1])
+    for q in problems:
+        V.setdefault(q["id"], {})
     k = per_problem or ((12 if full else 4) if not gantt else (5 if full else 2))
     jobs = []
     for p in problems:
